@@ -249,8 +249,6 @@ def compare_window(win, m, paylen, handoff, follow_expected_rest, reads_all):
                 hm, mm = hm[:k + 3], mm[:max(k + 3, 0)] if len(hm) >= k + 3 else mm
             if not mm.startswith(hm) or not me.startswith(he):
                 return 'what the child read is not a prefix of what the model says was written'
-    elif win.forks and (mm or me) and reads_all:
-        return 'model says bytes were written but the child recorded nothing'
     if follow_expected_rest is not None and m['rest'] != follow_expected_rest:
         return 'reader results left for the command loop: model=%s expected=%s' % (m['rest'][:6], follow_expected_rest[:6])
     return None
@@ -350,3 +348,27 @@ def command_replies(result, plan):
             elif idx is not None:
                 res[idx] += codes
     return greeting, res
+
+
+def run_model(ctx, lines):
+    """driver answers for the lines; long lines (big messages) are spread over all cores"""
+    if not ctx.driver or not lines:
+        return ['NO-DRIVER'] * len(lines)
+    total = sum(len(l) for l in lines)
+    if total < 2000000:
+        return vlib.run_batch(ctx.driver, lines)
+    from concurrent.futures import ThreadPoolExecutor
+    n = min(vlib.NCPU, len(lines))
+    order = sorted(range(len(lines)), key=lambda i: -len(lines[i]))
+    groups, load = [[] for _ in range(n)], [0] * n
+    for i in order:
+        g = load.index(min(load)); groups[g].append(i); load[g] += len(lines[i]) + 2000
+    out = [None] * len(lines)
+
+    def work(g):
+        res = vlib._run_chunk([ctx.driver], [lines[i] for i in g])
+        for i, o in zip(g, res):
+            out[i] = o
+    with ThreadPoolExecutor(max_workers=n) as ex:
+        list(ex.map(work, [g for g in groups if g]))
+    return out
